@@ -3,6 +3,8 @@ import r_cloud
 import r_panic
 import r_transform
 import r_sync
+import r_txn
+import r_taskdb
 
 PROPS = {}
 
@@ -27,7 +29,7 @@ PROPS["C18"] = {
 }
 
 PROPS["C01"] = {
-    "rules": [r_transform.rule_TP1, r_sync.rule_S1, r_sync.rule_S2, r_sync.rule_S3, r_sync.rule_S9, r_sync.rule_S4, r_sync.rule_S5, r_sync.rule_S6],
+    "rules": [r_transform.rule_TP1, r_sync.rule_S1, r_sync.rule_S2, r_sync.rule_S3, r_sync.rule_S9, r_sync.rule_S10, r_sync.rule_S4, r_sync.rule_S5, r_sync.rule_S6],
     "explanation": "TR/TP1: the transform's complete decision table is extracted statically from MIR and checked exhaustively over the finite abstract input space against the documented application semantics (diamond property).",
     "not_decided": "convergence over whole histories, N replicas, batching arithmetic",
     "assumptions": [],
@@ -45,7 +47,7 @@ PROPS["C04"] = {
     "assumptions": [],
 }
 PROPS["C02"] = {
-    "rules": [r_sync.rule_S1, r_sync.rule_S3, r_sync.rule_S7, r_sync.rule_S8, r_sync.rule_S9, r_sync.rule_S2],
+    "rules": [r_sync.rule_S1, r_sync.rule_S3, r_sync.rule_S7, r_sync.rule_S8, r_sync.rule_S9, r_sync.rule_S10, r_sync.rule_S2],
     "explanation": "SY rules on the retry arm of the sync function (which no test executes): S1 no stale re-read after the base version advanced, S2 every pending operation is in the rebased container, S3 sync_complete only when nothing is pending, S7 OutOfSync only on a repeated demand, S8 a rejection leads back to a pull, S9 accepted operations are removed.",
     "not_decided": "termination and convergence over all interleavings of N racing clients; the server's behaviour over time",
     "assumptions": [],
@@ -55,6 +57,30 @@ PROPS["C12"] = {
     "explanation": "N1 snapshot only with nothing pending and labelled with the accepted id; N2 urgency gate table and SnapshotUrgency declaration order.",
     "not_decided": "equality of snapshot content with the chain replay for all histories and Unicode contents",
     "assumptions": [],
+}
+PROPS["C05"] = {
+    "rules": [lambda F, R: r_txn.rule_T1(F, R, only=("commit_operations",)), r_taskdb.rule_L1, r_taskdb.rule_A1],
+    "explanation": "T1 on TaskDb::commit_operations (one transaction, commit last); L1 every operation logged in order unconditionally from the applied `operations`; A1 dispatch table of apply_operations (cache invalidation on create/delete, update through the cache, final flush).",
+    "not_decided": "equivalence of the write-cached batch application with one-at-a-time application for every batch; the replica invariant as a state predicate",
+    "assumptions": [],
+}
+PROPS["C07"] = {
+    "rules": [r_taskdb.rule_U1, r_taskdb.rule_U2, r_taskdb.rule_U3, lambda F, R: r_txn.rule_T1(F, R, only=("commit_reversed_operations",)), r_taskdb.rule_R4],
+    "explanation": "U1 reversal table of reverse_ops (exhaustive over Operation variants, field-level: old value restored); U2 commit_reversed_operations (early returns write nothing, suffix-equality tail match, reversed iteration, every reversed op applied, remove_operation per undone op); U3 only unsynchronised operations are offered and removable; T1 single transaction; rebuild without renumbering afterwards.",
+    "not_decided": "exact state restoration for all histories (needs recorded old values to be right, see C19); interaction with later commits",
+    "assumptions": [],
+}
+PROPS["C15"] = {
+    "rules": [r_taskdb.rule_R1, r_taskdb.rule_R2, r_taskdb.rule_R3, r_taskdb.rule_R4, lambda F, R: r_txn.rule_T1(F, R, only=("rebuild_working_set",))],
+    "explanation": "R1 keep/blank/drop table of one scan iteration of the working-set rebuild (all 7 rows); R2 slot 0 blank, scan from 1, newcomers = all tasks not seen and wanted, appended after the scan; R3 predicate truth tables (status in {pending, recurring}; commit trigger); R4 constant-false renumber after sync and undo; T1.",
+    "not_decided": "the resulting numbering as a function of arbitrary prior working sets over sequences of rebuilds; that the write-back makes storage equal to the computed vector",
+    "assumptions": [],
+}
+PROPS["C17"] = {
+    "rules": [lambda F, R: r_txn.rule_T1(F, R)],
+    "explanation": "T1 for all four mutating TaskDb actions: an action split over two storage transactions can interleave with another handle.",
+    "not_decided": "the schedule-level outcome: it is SQLite's locking that serialises handles and processes",
+    "assumptions": ["SQLite's transaction isolation"],
 }
 # reasons shown in MANIFEST.not_applicable for properties not (yet) claimed
 NOT_YET = {}
